@@ -144,6 +144,31 @@ Theorem C17_manifest_push_buffered :
 Proof. exact manifest_push_replayable. Qed.
 Print Assumptions C17_manifest_push_buffered.
 
+(* blob push (POST, then PUT with the blob; the PUT re-uses the POST's Authorization or is
+   an ordinary request of the auth client): every request of the PUT carries the blob as far
+   as the registry reads it, at the script position after the POST's requests *)
+Theorem C17_blob_push_bodies :
+  forall authc p cn bd sc,
+    wf_body bd ->
+    match u_put (blob_push authc p cn bd sc) with
+    | Some put => forall i t got, nth_error (auth_attempts put) i = Some (t, got) ->
+        got = received bd (nth (length (auth_attempts (u_post (blob_push authc p cn bd sc))) + i) sc default_beh)
+    | None => True
+    end.
+Proof. exact blob_push_bodies. Qed.
+Print Assumptions C17_blob_push_bodies.
+
+(* a one-shot blob reaches the registry in exactly one request of the PUT *)
+Theorem C17_blob_push_oneshot_once :
+  forall authc p cn bd sc,
+    (forall st', rewind bd st' = RwNoGetBody \/ rewind bd st' = RwGetBodyErr) ->
+    match u_put (blob_push authc p cn bd sc) with
+    | Some put => length (auth_attempts put) = 1%nat
+    | None => True
+    end.
+Proof. exact blob_push_not_replayable. Qed.
+Print Assumptions C17_blob_push_oneshot_once.
+
 (* --- cancellation -------------------------------------------------------------- *)
 
 (* context ending at tc: no attempt starts after tc, the call is over at tc, and a
@@ -299,6 +324,16 @@ Example ex_custom_predicate :
                         [mkBeh (OStatus 404 [] 0%N) None 0; mkBeh (OErr false false false) None 0;
                          mkBeh (OStatus 503 [] 0%N) None 0] 0 in
   o_res out = RPredErr /\ length (attempts (o_trace out)) = 3%nat.
+Proof. vm_compute. split; reflexivity. Qed.
+
+(* blob push: challenged POST (retried once), then the PUT with the POST's credentials,
+   retried once: both PUT requests carry the whole blob *)
+Example ex_blob_push :
+  let u := blob_push true ex_policy None ex_body
+             [mkBeh (OStatus 401 [] 2%N) None 0; mkBeh (OStatus 503 [] 0%N) None 0; mkBeh (OStatus 202 [] 0%N) None 0;
+              mkBeh (OStatus 502 [] 0%N) None 0; mkBeh (OStatus 201 [] 0%N) None 0] in
+  u_res u = RResp 201 0%N /\
+  match u_put u with Some put => map snd (auth_attempts put) = [b "manifest"; b "manifest"] | None => False end.
 Proof. vm_compute. split; reflexivity. Qed.
 
 (* Retry-After: 2 within [100ns, 3s]: honoured *)
